@@ -330,6 +330,8 @@ class C04Monitor(BookTracker):
                                       {"order": so.brief(), "fills": self.fill_sum[key], "expiry_volume": l.volume})
         for so in expired:
             res.count("expiries")
+            if so.ttl >= 40:
+                res.count("class/expiry_of_long_lived_order")
             self._lifetime_shape(so, "expired")
             if so.fills:
                 res.count("class/partial_fill_then_expiry")
